@@ -64,6 +64,9 @@ type entity struct {
 	hist   []nameAt // every (version, name) of this entity at the source
 	data   int      // data variant counter
 	drafts int      // metrics: number of tags_draft entries (0, or 2..8)
+	ns     int      // 0 = not chosen yet, 1 = namespace field unset, 2.. = namespace id + 2
+	past   [][2]int // earlier (data, drafts) states, for reverting edits
+	conts  []int    // content number of every source version of this entity
 }
 
 type replica struct {
@@ -495,8 +498,46 @@ func (w *world) stored(ri int, k int) int {
 	return y
 }
 
+// aheadOfUpstream: entities for which replica ri holds a NEWER version than its (compact, non-source) upstream does,
+// the replica's content being the stored form of an earlier source version of that entity. This is the signature of the
+// known finding "agent ahead of a rolled-back compact aggregator": the aggregator restarted from an older file, the
+// entity's compact form returned to what that file holds, the aggregator skipped it as unchanged and keeps a version
+// below the agent's, so the agent is never sent the current form.
+func (w *world) aheadOfUpstream(ri int) map[key]bool {
+	res := map[key]bool{}
+	rep := w.reps[ri]
+	if ri == 0 || rep.up == 0 || !w.reps[rep.up].compact {
+		return res
+	}
+	upBy := map[key]tlmetadata.Event{}
+	for _, e := range metajournal.VerifC20Journal(w.reps[rep.up].j).Events {
+		upBy[key{e.EventType, e.Id}] = e
+	}
+	for _, e := range metajournal.VerifC20Journal(rep.j).Events {
+		k := key{e.EventType, e.Id}
+		u, ok := upBy[k]
+		ent := w.ents[k]
+		if !ok || ent == nil || u.Version >= e.Version {
+			continue
+		}
+		for _, c := range ent.conts {
+			if x := w.stored(ri, c); x >= 0 && metajournal.VerifC20EqualWithoutVersion(w.contents[x].ev, e) {
+				res[k] = true
+				break
+			}
+		}
+	}
+	return res
+}
+
 // O3 + O4, evaluated for replicas that have received everything their upstream chain has
 func (w *world) oracleSynced(op string) {
+	ahead := map[int]map[key]bool{}
+	for ri := 1; ri < len(w.reps); ri++ {
+		if !w.reps[ri].dead && !w.reps[w.reps[ri].up].dead {
+			ahead[ri] = w.aheadOfUpstream(ri)
+		}
+	}
 	type snap struct {
 		js metajournal.VerifC20JournalState
 		by map[key]tlmetadata.Event
@@ -531,7 +572,11 @@ func (w *world) oracleSynced(op string) {
 			}
 			exp := w.contents[x].ev
 			if !metajournal.VerifC20EqualWithoutVersion(got, exp) || got.Version > ent.ver {
-				w.h.Viol("replica-stale-entity", "replica %d (synced) after %s: entity type=%d id=%d has name %q v%d, source has %q v%d", ri, op, k.typ, k.id, got.Name, got.Version, ent.name, ent.ver)
+				sig := "replica-stale-entity"
+				if ahead[ri][k] {
+					sig = "agent-ahead-of-rolled-back-compact-upstream"
+				}
+				w.h.Viol(sig, "replica %d (synced) after %s: entity type=%d id=%d has name %q v%d, source has %q v%d", ri, op, k.typ, k.id, got.Name, got.Version, ent.name, ent.ver)
 				continue
 			}
 			// the in-memory index shows the same version and name
@@ -572,7 +617,11 @@ func (w *world) oracleSynced(op string) {
 			}
 			w.h.Stat("oracle.hash.pair", 1)
 			if sa.js.HashStr != sb.js.HashStr {
-				w.h.Viol("hash-diverged", "after %s: replicas %d and %d of journal %d are both synced but hashes differ %s %s", op, a, b, w.reps[a].up, sa.js.HashStr, sb.js.HashStr)
+				sig := "hash-diverged"
+				if len(ahead[a]) > 0 || len(ahead[b]) > 0 {
+					sig = "hash-diverged-agent-ahead-of-rolled-back-compact-upstream"
+				}
+				w.h.Viol(sig, "after %s: replicas %d and %d of journal %d are both synced but hashes differ %s %s", op, a, b, w.reps[a].up, sa.js.HashStr, sb.js.HashStr)
 			}
 		}
 	}
@@ -585,7 +634,11 @@ func (w *world) oracleSynced(op string) {
 		}
 		w.h.Stat("oracle.hash.parent", 1)
 		if h := metajournal.VerifC20Journal(w.reps[up].j).HashStr; h != sa.js.HashStr {
-			w.h.Viol("hash-diverged-from-upstream", "after %s: replica %d is synced with journal %d but hashes differ %s %s", op, a, up, sa.js.HashStr, h)
+			sig := "hash-diverged-from-upstream"
+			if len(ahead[a]) > 0 {
+				sig = "hash-diverged-from-upstream-agent-ahead-of-rolled-back-compact-upstream"
+			}
+			w.h.Viol(sig, "after %s: replica %d is synced with journal %d but hashes differ %s %s", op, a, up, sa.js.HashStr, h)
 		}
 	}
 }
@@ -850,8 +903,11 @@ func (w *world) newEvent(ent *entity, malformed int) tlmetadata.Event {
 	case 1:
 		e.Data = `{"description":` // broken JSON: ApplyEvent skips it, the journal carries it
 	}
-	if w.r.Chance(1, 3) {
-		e.SetNamespaceId(int64(w.r.Range(0, 3)))
+	if ent.ns == 0 {
+		ent.ns = 1 + w.r.Pick(4, 1, 1, 1) // 1 = field not set, 2..4 = namespace id 0..2 (fixed per entity: a reverted edit reproduces the earlier event)
+	}
+	if ent.ns > 1 {
+		e.SetNamespaceId(int64(ent.ns - 2))
 	}
 	if w.r.Chance(1, 4) {
 		e.SetMetadata(fmt.Sprintf(`{"who":"u%d"}`, w.r.Intn(3)))
@@ -867,6 +923,7 @@ func (w *world) commit(ent *entity, e tlmetadata.Event) {
 	ent.k = w.internEvent(e)
 	ent.ok, _ = parseInfo(e)
 	ent.hist = append(ent.hist, nameAt{e.Version, e.Name})
+	ent.conts = append(ent.conts, ent.k)
 }
 
 func (w *world) randomType() int32 {
@@ -941,6 +998,17 @@ func (w *world) edit(upto *int) bool {
 	ent := w.pickEntity(format.MetricEvent, format.MetricEvent, format.MetricsGroupEvent, format.NamespaceEvent, format.DashboardEvent, format.PromConfigEvent, 7)
 	if ent == nil {
 		return false
+	}
+	ent.past = append(ent.past, [2]int{ent.data, ent.drafts})
+	if len(ent.past) > 1 && w.r.Chance(1, 3) {
+		// revert to an earlier state (A -> B -> A): the compact form returns to a value a stale replica may still hold
+		p := ent.past[w.r.Intn(len(ent.past)-1)]
+		ent.data, ent.drafts = p[0], p[1]
+		e := w.newEvent(ent, 0)
+		w.commit(ent, e)
+		w.nt("revert")
+		w.opSrc(e, upto, "revert")
+		return true
 	}
 	if ent.key.typ == format.MetricEvent && w.r.Chance(1, 6) {
 		ent.drafts = []int{0, 2, 3, 5, 8}[w.r.Intn(5)]
@@ -1197,9 +1265,59 @@ func runWitnessDrafts(h *verifx.H, r *verifx.Rng) {
 	h.Stat("cases.witness", 1)
 }
 
+// witness 5: an agent that is ahead of its rolled-back aggregator. Source X@1 (c0) -> aggregator (compact) saves;
+// X@2 (c1) reaches aggregator and agent 2; X@3 reverts to c0; the aggregator restarts from its stale file (it holds X@1 again),
+// receives X@3; a second agent 3 joins. When everybody is synced all agents of the aggregator must hold the same X.
+func runWitnessRollback(h *verifx.H, r *verifx.Rng) {
+	w := &world{h: h, r: r, intern: map[tlmetadata.Event]int{}, ents: map[key]*entity{}, freed: map[int32][]string{}, tags: map[string]bool{}, dropByKey: map[key]bool{}}
+	ups := []int{-1, 0, 1, 1}
+	for i := 0; i < 4; i++ {
+		rep := &replica{up: ups[i], compact: i == 1}
+		rep.st = metajournal.MakeMetricsStorage(nil)
+		rep.j, _ = metajournal.LoadJournalFastSlice(&rep.file, 0, rep.compact, []metajournal.ApplyEvent{rep.st.ApplyEvent})
+		w.reps = append(w.reps, rep)
+	}
+	h.Op("new 4 1:0 0:1 0:1")
+	upto := 0
+	put := func(ent *entity, what string) {
+		if w.ents[ent.key] == nil {
+			w.ents[ent.key] = ent
+			w.keys = append(w.keys, ent.key)
+		}
+		w.ver++
+		e := tlmetadata.Event{Id: ent.key.id, Name: ent.name, EventType: ent.key.typ, Version: w.ver, UpdateTime: uint32(1000 + w.ver), Data: w.makeData(ent)}
+		w.commit(ent, e)
+		w.opSrc(e, &upto, what)
+	}
+	x := &entity{key: key{format.MetricEvent, 1}, name: "x"}
+	put(x, "create") // X@1, data variant 0
+	w.opDeliver(1, 1000, 800*1024, inf)
+	w.opSave(1) // the aggregator's file holds X@1
+	x.data = 2
+	put(x, "edit") // X@2: compact-visible change
+	w.opDeliver(1, 1000, 800*1024, inf)
+	w.opDeliver(2, 1000, 800*1024, inf) // agent 2 has X@2
+	x.data = 0
+	put(x, "revert") // X@3: back to the first form
+	w.nt("revert")
+	w.opRestart(1, inf) // crash without a newer save: the aggregator is back at X@1, the agent is ahead of it
+	w.opDeliver(1, 1000, 800*1024, inf)
+	y := &entity{key: key{format.MetricEvent, 2}, name: "y"}
+	put(y, "create") // Y@4 lifts everybody's version
+	w.opDeliver(1, 1000, 800*1024, inf)
+	w.opDeliver(2, 1000, 800*1024, inf)
+	w.opDeliver(3, 1000, 800*1024, inf)
+	w.oracleSynced("drain")
+	h.Stat("cases.witness", 1)
+}
+
 func runWitness(h *verifx.H, r *verifx.Rng, idx int) {
 	if idx == 4 {
 		runWitnessDrafts(h, r)
+		return
+	}
+	if idx == 5 {
+		runWitnessRollback(h, r)
 		return
 	}
 	w := &world{h: h, r: r, intern: map[tlmetadata.Event]int{}, ents: map[key]*entity{}, freed: map[int32][]string{}, tags: map[string]bool{}, dropByKey: map[key]bool{}}
